@@ -58,7 +58,7 @@ structure SameSituation (s : JState) (w : World) (name : String) (b : BinFile) (
   files : ∀ p, s.mt p = w.mtime p
   bin : s.binT.lookup name = some mt
   bins : ∀ q t, s.binT.lookup q = some t → w.mtime (binPath w q) = some t
-  includes : (declOf s name).includes = b.includes
+  includes : ∀ i, i ∈ (declOf s name).includes → i ∈ b.includes ∨ w.mtime i = none   -- ('!' entries name no file)
   inherits : (declOf s name).inherits = b.inherits
   parents : ∀ i q, i ∈ b.inherits → Reach w i q → ∀ lp, w.progs.lookup q = some lp →
     lp.inherits = (declOf s q).inherits ∧ (∀ f, f ∈ q :: (declOf s q).includes → f ∈ lp.files)
@@ -88,7 +88,7 @@ theorem model_use_passes_stale_clause (s : JState) (w : World) (name : String) (
     (h : loadBinary w name = .use) (hm : w.mtime (binPath w name) = some mt)
     (hb : w.bins.lookup (binPath w name) = some b) (hc : SameSituation s w name b mt) :
     staleReasons s name = [] := by
-  obtain ⟨mt', b', hm', hb', _, _, _, _, hsim, hsrc, hinc, _, hinh⟩ := never_stale w name h
+  obtain ⟨mt', b', hm', hb', _, _, _, _, hsim, hsrc, hinc, _, _, hinh⟩ := never_stale w name h
   rw [hm] at hm'
   rw [hb] at hb'
   cases hm'
@@ -136,9 +136,12 @@ theorem model_use_passes_stale_clause (s : JState) (w : World) (name : String) (
     · simp [h0, hn]
   · rw [List.map_eq_nil_iff, List.filter_eq_nil_iff]
     intro i hi
-    rw [hc.includes] at hi
-    obtain ⟨t, ht, hle⟩ := hinc i hi
-    rcases mtFact i (by intro t' ht'; rw [ht] at ht'; cases ht'; exact hle) with h0 | ⟨t0, h0, hn⟩
+    have hcond : ∀ t', w.mtime i = some t' → t' ≤ mt := by
+      rcases hc.includes i hi with hin | hnone
+      · obtain ⟨t, ht, hle⟩ := hinc i hin
+        intro t' ht'; rw [ht] at ht'; cases ht'; exact hle
+      · intro t' ht'; rw [hnone] at ht'; cases ht'
+    rcases mtFact i hcond with h0 | ⟨t0, h0, hn⟩
     · simp [h0]
     · simp [h0, hn]
   · rw [List.map_eq_nil_iff, List.filter_eq_nil_iff]
@@ -249,6 +252,70 @@ theorem model_save_passes_outdated_clause (s : JState) (w : World) (linked : Lis
   intro q hq
   have := progOutdated_false_oracle s w hc 64 q.1 q.2 (by simpa using hany q hq)
   simp [this]
+
+/-! ### the clauses `damaged-binary-used` and `foreign-binary-used` -/
+
+/-- **model_use_passes_damaged_and_foreign_clauses**: the oracle flags the use of a binary it knows to be damaged (checksum),
+    written by another driver build or configuration (magic, driver id, config id) or saved for another program (name).
+    When the model answers "use" the binary is none of these. -/
+theorem model_use_passes_damaged_and_foreign_clauses (w : World) (name : String) (h : loadBinary w name = .use) :
+    ∃ b, w.bins.lookup (binPath w name) = some b ∧ b.intact = true ∧ b.magic = magicId ∧ b.driverId = driverId ∧
+      b.configId = w.configId ∧ (b.name.length = 0 ∨ b.name = name) := by
+  obtain ⟨_, b, _, hb, h0, h1, h2, h3, _, _, _, _, hn, _⟩ := never_stale w name h
+  exact ⟨b, hb, h0, h1, h2, h3, hn⟩
+
+/-! ### the clause `include-shadowed-by` -/
+
+/-- what `inc_open` opens is the first candidate that exists -/
+theorem incOpen_fst (w : World) : ∀ cands : List String,
+    (incOpen w cands).map (·.1) = cands.find? (fun c => (w.mtime c).isSome) := by
+  intro cands
+  induction cands with
+  | nil => rfl
+  | cons c rest ih =>
+    unfold incOpen
+    by_cases hc : (w.mtime c).isSome = true
+    · simp [hc]
+    · simp only [hc, Bool.false_eq_true, if_false, List.find?_cons]
+      rw [← ih]
+      cases incOpen w rest <;> simp
+
+/-- **model_use_passes_shadow_clause**: the clause `include-shadowed-by` of the oracle compares what every declared include
+    directive of the program resolved to when the binary was saved (oracle state `s0`, world `w0`) with what it resolves
+    to when the binary is used (`s`, `w`).  If the binary lists what `inc_open` did at compile time (the file read among
+    `includes`, every missed candidate among the '!' entries) and the model's `load_binary` uses it, both lists are equal:
+    the clause cannot fire on a `lb … use` line of the model. -/
+theorem model_use_passes_shadow_clause (s0 s : JState) (w0 w : World) (name : String) (b : BinFile)
+    (hf0 : ∀ p, s0.mt p = w0.mtime p) (hf : ∀ p, s.mt p = w.mtime p) (hdecl : s0.incsearch = s.incsearch)
+    (hdirs : ∀ d, d ∈ s.incsearch → d.1 = name →
+      ∃ r missed, incOpen w0 d.2 = some (r, missed) ∧ r ∈ b.includes ∧ ∀ c, c ∈ missed → c ∈ b.absent)
+    (hb : w.bins.lookup (binPath w name) = some b) (h : loadBinary w name = .use) :
+    resolveNow s0 name = resolveNow s name := by
+  unfold resolveNow
+  rw [hdecl]
+  apply List.map_congr_left
+  intro d hd
+  rw [List.mem_filter] at hd
+  obtain ⟨r, missed, hopen, hr, hm⟩ := hdirs d hd.1 (by simpa using hd.2)
+  have h0 : d.2.find? (fun c => (s0.mt c).isSome) = some r := by
+    have := incOpen_fst w0 d.2
+    rw [hopen] at this
+    simp only [Option.map_some] at this
+    have e : (fun c => (s0.mt c).isSome) = (fun c => (w0.mtime c).isSome) := by
+      funext c
+      rw [hf0 c]
+    rw [e]
+    exact this.symm
+  have h1 : d.2.find? (fun c => (s.mt c).isSome) = some r := by
+    have := includes_resolve_as_recorded w0 w name b d.2 r missed hopen hb hr hm h
+    unfold resolveIncludeP at this
+    have e : (fun c => (s.mt c).isSome) = (fun c => (w.mtime c).isSome) := by
+      funext c
+      rw [hf c]
+    rw [e]
+    exact this
+  rw [h0, h1]
+
 
 /-- non-vacuity: a program with an include file and the simul_efun file, all older than its binary -/
 example :
